@@ -23,7 +23,7 @@ import (
 // node addition, removal or tainting": a rolling update from template A to B on a two-node cluster
 // (every node holds a Ready pod of A; no canary strategy) is interrupted after 0..3 rounds of
 // {ExtendedDaemonSet reconcile, every replica-set reconcile, kubelet step} by one event — a node joins,
-// node1 leaves (its pod stays behind), node1 gets a NoSchedule taint the pod does not tolerate, or node1
+// node1 leaves (its pod stays behind), node1 (or every node) gets a NoSchedule taint the pod does not tolerate, or node1
 // loses a taint it had from the start.  Further rounds reach, within the bound, exactly one Ready pod
 // of B on every node that is eligible in the end and no other daemon pod; one more round creates or
 // deletes nothing and the status counts the eligible nodes.
@@ -47,7 +47,7 @@ func ZZ_C02_roundsWithNodeChurn() {
 	rsOld.CreationTimestamp = metav1.NewTime(nondet.Base().Add(-time.Hour))
 	c.ERS = append(c.ERS, rsOld)
 	ds.Status.ActiveReplicaSet = "foo-a"
-	event := nondet.String("event", "node-joins", "node-leaves", "node-gets-tainted", "node-loses-its-taint")
+	event := nondet.String("event", "node-joins", "node-leaves", "node-gets-tainted", "node-loses-its-taint", "every-node-gets-tainted")
 	taint := []corev1.Taint{{Key: "dedicated", Value: "db", Effect: corev1.TaintEffectNoSchedule}}
 	for i := 0; i < 2; i++ {
 		node := &corev1.Node{ObjectMeta: metav1.ObjectMeta{Name: zzNodeName(i), Labels: map[string]string{}, Annotations: map[string]string{}}}
@@ -93,6 +93,10 @@ func ZZ_C02_roundsWithNodeChurn() {
 	case "node-leaves":
 		c.Nodes = c.Nodes[:1]
 	case "node-gets-tainted":
+		c.Nodes[1].Spec.Taints = taint
+	case "every-node-gets-tainted":
+		// no eligible node is left: every daemon pod has to go
+		c.Nodes[0].Spec.Taints = taint
 		c.Nodes[1].Spec.Taints = taint
 	default:
 		c.Nodes[1].Spec.Taints = nil
